@@ -320,3 +320,62 @@ func fullAKID(authority *Node) []byte {
 	})
 	return b.BytesOrPanic()
 }
+
+// NonMinimalSerial re-issues n with the same TBSCertificate except that the serial number INTEGER carries a
+// superfluous leading zero octet (an encoding slip strict DER parsers refuse and lenient ones tolerate), signed
+// again by n's issuer (ECDSA P-256 / SHA-256 issuers only).  Node.Cert is nil when the standard parser refuses it.
+func NonMinimalSerial(n *Node) *Node {
+	pk, ok := n.Parent.Key.(*ecdsa.PrivateKey)
+	if !ok || pk.Curve != elliptic.P256() {
+		panic("pki: NonMinimalSerial needs a P-256 issuer")
+	}
+	in := cryptobyte.String(n.DER)
+	var cert, tbs, tbsBody cryptobyte.String
+	if !in.ReadASN1(&cert, cbasn1.SEQUENCE) || !cert.ReadASN1Element(&tbs, cbasn1.SEQUENCE) {
+		panic("pki: certificate structure")
+	}
+	var sigAlg cryptobyte.String
+	if !cert.ReadASN1Element(&sigAlg, cbasn1.SEQUENCE) {
+		panic("pki: signature algorithm")
+	}
+	whole := tbs
+	if !whole.ReadASN1(&tbsBody, cbasn1.SEQUENCE) {
+		panic("pki: tbs")
+	}
+	var version, serial cryptobyte.String
+	hasVersion := tbsBody.PeekASN1Tag(cbasn1.Tag(0).ContextSpecific().Constructed())
+	if hasVersion && !tbsBody.ReadASN1Element(&version, cbasn1.Tag(0).ContextSpecific().Constructed()) {
+		panic("pki: version")
+	}
+	if !tbsBody.ReadASN1(&serial, cbasn1.INTEGER) || len(serial) == 0 || serial[0] >= 0x80 || len(serial) > 100 {
+		panic("pki: serial")
+	}
+	var b cryptobyte.Builder
+	b.AddASN1(cbasn1.SEQUENCE, func(b *cryptobyte.Builder) {
+		b.AddBytes(version)
+		b.AddBytes([]byte{0x02, byte(len(serial) + 1), 0x00})
+		b.AddBytes(serial)
+		b.AddBytes(tbsBody)
+	})
+	newTBS, err := b.Bytes()
+	if err != nil {
+		panic(err)
+	}
+	h := sha256.Sum256(newTBS)
+	sig, err := ecdsa.SignASN1(rand.Reader, pk, h[:])
+	if err != nil {
+		panic(err)
+	}
+	var c cryptobyte.Builder
+	c.AddASN1(cbasn1.SEQUENCE, func(c *cryptobyte.Builder) {
+		c.AddBytes(newTBS)
+		c.AddBytes(sigAlg)
+		c.AddASN1BitString(sig)
+	})
+	der, err := c.Bytes()
+	if err != nil {
+		panic(err)
+	}
+	parsed, _ := x509.ParseCertificate(der)
+	return &Node{Name: n.Name + "~serial", Cert: parsed, DER: der, Key: n.Key, Parent: n.Parent}
+}
